@@ -79,7 +79,7 @@ REL_DOTTED = {".eq.", ".ne.", ".lt.", ".le.", ".gt.", ".ge."}
 INTRINSIC_DOTTED = REL_DOTTED | {".not.", ".and.", ".or.", ".eqv.", ".neqv."}
 
 ATOMS = {
-    "name": ["a", "b", "c", "x", "y", "z1", "i_j", "Var"],
+    "name": ["a", "b", "c", "x", "y", "z1", "i_j", "Var", "e", "d", "E1"],
     "int": ["1", "2", "42"],
     "real": ["1.5", "0.25"],
     "exp": ["1.0e-3", "2.5d+2", "1e-3", "3.E+4", "6.0E-10_8"],
